@@ -254,8 +254,9 @@ def prefetch_iterator_natural(case, ctx):
                                    st.one_of(st.none(), st.integers(0, 8)),
                                    st.integers(1, 4), st.integers(0, 3)),
         quick=300, thorough=5000,
-        rule='source length 0-8 x failing position x buffer size 1-4 x item '
-        'pytree shape; consumer sees every item before the failure, in order, '
+        rule='source (a generator, or a plain iterator object that stays '
+        'usable after raising) of length 0-8 x failing position x buffer size '
+        '1-4 x item pytree shape; consumer sees every item before the failure, in order, '
         'values intact, then the exception / end; non-trivial = failure at a '
         'position inside the prefetch window or length > buffer size')
 def prefetch_to_device(case, ctx):
@@ -278,11 +279,31 @@ def prefetch_to_device(case, ctx):
       yield item(i)
     if fail_at is not None and fail_at >= n and fail_at == n:
       raise SourceError('boom at end')
+  class Reader:
+    """A plain iterator object (a record reader with a cursor): unlike a
+    generator it stays usable after it raised."""
+
+    def __init__(self):
+      self.i = 0
+
+    def __iter__(self):
+      return self
+
+    def __next__(self):
+      i = self.i
+      self.i += 1
+      if fail_at is not None and i == fail_at and i <= n:
+        raise SourceError(f'boom at {i}')
+      if i >= n + (1 if fail_at is not None and fail_at <= n else 0):
+        raise StopIteration
+      return item(i if fail_at is None or i < fail_at else i - 1 + 100)
   fails = fail_at is not None and fail_at <= n
   p = fail_at if fails else n
   got, end = [], None
+  # the source is a generator or a plain iterator object
+  source = gen() if (n + size + kind) % 2 == 0 else Reader()
   with sut('prefetch_to_device'):
-    it = jax_utils.prefetch_to_device(gen(), size)
+    it = jax_utils.prefetch_to_device(source, size)
     while True:
       try:
         got.append(next(it))
@@ -305,7 +326,8 @@ def prefetch_to_device(case, ctx):
             f'item {i} delivered out of order or with changed values')
   require(end == ('error' if fails else 'stop'), lambda: f'source '
           f'{"raised" if fails else "ended"} but consumer saw {end}')
-  ctx.note(labels=['fail' if fails else 'nofail'],
+  ctx.note(labels=['fail' if fails else 'nofail',
+                   'generator' if (n + size + kind) % 2 == 0 else 'reader'],
            nontrivial=(fails and p < size + 2) or n > size)
 
 
